@@ -49,6 +49,12 @@ func (c *Ctx) atomLabel(a Atom) string {
 		}
 		return k.Value.ExactString()
 	}
+	if len(a.Env) > 0 {
+		// translate a helper-internal atom into the caller's terms where its value is a bound parameter
+		if v := a.val(); v != nil && v != resolve(a.X) {
+			a.X = v
+		}
+	}
 	switch a.Kind {
 	case "nil":
 		if _, ok := resolve(a.X).(*ssa.Parameter); ok {
@@ -61,7 +67,7 @@ func (c *Ctx) atomLabel(a Atom) string {
 		}
 		return "E==nil"
 	case "const":
-		if b, n, ok := fieldLoad(a.X); ok {
+		if b, n, ok := fieldLoadA(a); ok {
 			return role(b) + "." + n + "==" + cst(a.C)
 		}
 		if _, ok := resolve(a.X).(*ssa.Parameter); ok {
@@ -125,6 +131,9 @@ func calleeShort(cl *ssa.Call) string {
 func (c *Ctx) domFacts(f *ssa.Function, blk *ssa.BasicBlock) map[string]bool {
 	out := map[string]bool{}
 	for _, bf := range branchFacts(f) {
+		if bf.Derived && c.opaqueHelper(bf.Via) {
+			continue
+		}
 		if mustPassEdges(f, blk, map[edge]bool{bf.E: true}) {
 			tf := "F"
 			if bf.Holds {
@@ -134,6 +143,19 @@ func (c *Ctx) domFacts(f *ssa.Function, blk *ssa.BasicBlock) map[string]bool {
 		}
 	}
 	return out
+}
+
+// opaqueHelper: domain functions that have their own specification are not looked into when they are called.
+func (c *Ctx) opaqueHelper(h *ssa.Function) bool {
+	if h == nil {
+		return false
+	}
+	for _, a := range c.F.Anchors {
+		if a == h {
+			return true
+		}
+	}
+	return false
 }
 
 // boolReturns lists returns of a bool function with their constant value (nil const => not constant).
@@ -147,6 +169,9 @@ func (c *Ctx) boolReturns(f *ssa.Function) []boolRet {
 	var out []boolRet
 	edgeFact := func(pred, blk *ssa.BasicBlock, facts map[string]bool) {
 		for _, bf := range branchFacts(f) {
+			if bf.Derived && c.opaqueHelper(bf.Via) {
+				continue
+			}
 			if bf.E.From == pred && bf.E.To() == blk {
 				tf := "F"
 				if bf.Holds {
